@@ -258,6 +258,24 @@ Proof.
 Qed.
 Print Assumptions small_angle_branch_defect_partial.
 
+(* (14) Transform.compose on plain callables (lambda body translated from
+   transform.py): the composed transform applies `other` then `self`, and -
+   being a new function of the two operands only - composing longer chains
+   re-using intermediate results is associative: (f o (g o h)) = ((f o g) o h)
+   = f (g (h x)) and an intermediate (g o h) keeps meaning g (h x). *)
+Theorem generic_compose_apply :
+  forall (A : Type) (f g : A -> A) (x : A), generic_compose f g x = f (g x).
+Proof. intros A f g x. reflexivity. Qed.
+Print Assumptions generic_compose_apply.
+
+Theorem generic_compose_chain :
+  forall (A : Type) (f g h k : A -> A) (x : A),
+  let gh := generic_compose g h in
+  generic_compose f gh x = f (g (h x)) /\ generic_compose k gh x = k (g (h x)) /\ gh x = g (h x) /\
+  generic_compose (generic_compose f g) h x = f (g (h x)).
+Proof. intros A f g h k x. repeat split. Qed.
+Print Assumptions generic_compose_chain.
+
 (* ---------------------------------------------------------------- Z instance: non-vacuity *)
 Definition zneg (x : Z) : bool := Z.ltb x 0.
 Definition zfrom := from_matrix44 Z 0%Z 1%Z Z.add Z.mul Z.sub Z.opp Z.div zneg.
